@@ -86,7 +86,10 @@ type rtype struct {
 func load(T types.Type, addr *value) value {
 	switch T := T.Underlying().(type) {
 	case *types.Struct:
-		v := (*addr).(structure)
+		v, ok := (*addr).(structure)
+		if !ok {
+			return *addr // native opaque value (immutable)
+		}
 		a := make(structure, len(v))
 		for i := range a {
 			a[i] = load(T.Field(i).Type(), &v[i])
@@ -108,7 +111,11 @@ func load(T types.Type, addr *value) value {
 func store(T types.Type, addr *value, v value) {
 	switch T := T.Underlying().(type) {
 	case *types.Struct:
-		lhs := (*addr).(structure)
+		lhs, ok := (*addr).(structure)
+		if !ok {
+			*addr = v
+			return
+		}
 		rhs := v.(structure)
 		for i := range lhs {
 			store(T.Field(i).Type(), &lhs[i], rhs[i])
